@@ -67,7 +67,7 @@ def programs(draw):
     popsum = 0
     seg_end_hint = []
     fault = d.choice(['overlap', 'address-too-big', 'segment-misaligned', 'reserve-misaligned', 'pad-misaligned', 'word-too-big',
-                      'word-negative', 'wflip-value-too-big', 'pad-zero', 'duplicate-label', 'reserve-w-only']) if d.pct() < 22 else None
+                      'word-negative', 'wflip-value-too-big', 'pad-zero', 'duplicate-label', 'reserve-w-only', 'odd-word-segment']) if d.pct() < 22 else None
     first = True
     if fault == 'overlap' and w > 8:
         seg_budget = max(seg_budget, d.choice([1, 1, 2]))   # overlap geometries need an earlier segment above address 0
@@ -88,7 +88,7 @@ def programs(draw):
             n_ops += 1
             cur += dw
         elif r < 82 and w > 8:
-            n = d.choice([1, 2, 4, 8])
+            n = d.choice([1, 2, 4, 8, 2, 4, 3, 5, 6, 7, 12])
             skel.append(['pad', ['n', n, 'dec']])
             cur += ((-(cur // dw)) % n) * dw
         elif r < 90 and w > 8:
@@ -176,6 +176,17 @@ def programs(draw):
             stmts += [['reserve', ['n', d.int(1, w - 1) + w * d.int(0, 3), 'dec']]]
         elif fault == 'reserve-w-only':
             stmts += [['reserve', ['id', 'w']], ['op', None, None]]
+        elif fault == 'odd-word-segment' and w > 8:
+            # a segment at an odd word, optionally re-aligned by an odd reserve: each half alone and both together put
+            # an op at an odd word
+            top = max([sg['stmts_end'] for sg in L.segments] + [0])
+            a = (top // dw + 30 + d.int(0, 20)) * dw + w
+            if a + 40 * dw < lim:
+                stmts += [['segment', ['n', a, 'hex']], ['op', None, None]] + [['op', None, None]] * d.int(0, 2)
+                if d.pct() < 65:
+                    stmts += [['reserve', ['n', (2 * d.int(0, 3) + 1) * w, 'dec']]] + [['op', None, None]] * d.int(0, 2)
+            else:
+                fault = None
         elif fault == 'pad-misaligned':
             stmts += [['reserve', ['id', 'w']], ['pad', ['n', 2, 'dec']], ['op', None, None]]
         elif fault == 'word-too-big' and idx_ops:
